@@ -179,6 +179,9 @@ func doReq(w *world, scopes []tally.Scope, r Req) {
 			raw := n
 			if w.san {
 				raw, n = fmt.Sprintf("k-%d", r.N), fmt.Sprintf("k_%d", r.N)
+				if r.D%2 == 1 {
+					raw = n // ... and every other request uses the canonical spelling itself
+				}
 			}
 			tg := map[string]string{"k": raw}
 			ch = sc.Tagged(tg)
@@ -318,7 +321,9 @@ func run(c Case) (pbt.Outcome, error) {
 				} else {
 					raw, v := "k1", "k1"
 					if c.San {
-						raw, v = "k-1", "k_1"
+						// spelled differently from the threads' "k-1": they meet the closed predecessor
+						// only under the sanitized key
+						raw, v = "k+1", "k_1"
 					}
 					ch, name = sc.Tagged(map[string]string{"k": raw}), metricName(si, "cc")+"{k="+v+"}"
 				}
@@ -525,7 +530,7 @@ var lastOptions []int
 func TestExhaustive(t *testing.T) {
 	prop := pbt.Prop[Case]{
 		ID: "C09", Name: "exhaustive",
-		Rule: "bounded-exhaustive mode: ALL schedules with at most 6 (quick) / 9 (thorough) preemptions (4 / 7 with three threads) of deterministic micro-scenarios {two or three threads make the first use of the same counter, gauge, timer, histogram, SubScope child or Tagged child on the root of a one-shard registry and record through it; plain and cached}, enumerated depth-first over the verif yield points and lock probes of the get-or-create paths; same oracle as the generated mode (one object per identity, Allocate at most once, conservation, no panic, exact deadlock). Non-trivial: a get-or-create window was preempted.",
+		Rule: "bounded-exhaustive mode: ALL schedules with at most 6 (quick) / 9 (thorough) preemptions (4 / 7 with three threads) of deterministic micro-scenarios {two or three threads make the first use of the same counter, gauge, timer, histogram, SubScope child or Tagged child on the root of a one-shard registry and record through it; plain and cached; for the child scopes also with a closed predecessor still registered - under its own key or, with a sanitizer, only under the sanitized key - and two preemptions fewer}, enumerated depth-first over the verif yield points and lock probes of the get-or-create paths; same oracle as the generated mode (one object per identity, Allocate at most once, conservation, no panic, exact deadlock). Non-trivial: a get-or-create window was preempted.",
 		Run:  run,
 	}
 	bound := 6
@@ -554,6 +559,24 @@ func TestExhaustive(t *testing.T) {
 						return lastOptions, ok
 					})
 					all = all && ex
+					// the same with a closed predecessor of the child still registered - met under its own
+					// key, or (sanitizer) only under the sanitized key
+					if k.K == "child" && nthreads == 2 {
+						for _, san := range []bool{false, true} {
+							if san && k.N == 0 {
+								continue
+							}
+							pre := base
+							pre.PreClosed, pre.San = true, san
+							_, ex := sched.Enumerate(b-2, 400000, func(prefix []int) ([]int, bool) {
+								c := pre
+								c.Sched = append([]int(nil), prefix...)
+								ok := emit(c)
+								return lastOptions, ok
+							})
+							all = all && ex
+						}
+					}
 				}
 			}
 		}
